@@ -323,6 +323,19 @@ impl Parsed {
         if tw[0] as usize != entries * 4 {
             return Err(format!("first sector offset {} != table size {}", tw[0], entries * 4));
         }
+        // checksum sector (published layout): tw[n]..tw[n+1], never encrypted, raw or compressed
+        let mut sums: Option<Vec<u32>> = None;
+        if b.flags & F_CRC != 0 {
+            let (s, e) = (tw[n] as usize, tw[n + 1] as usize);
+            if e < s || e > raw.len() || e - s > 4 * n {
+                return Err(format!("checksum sector {s}..{e} does not fit {n} sectors"));
+            }
+            if e > s {
+                let stored = &raw[s..e];
+                let plain = if stored.len() < 4 * n { inflate(stored[0], &stored[1..], 4 * n)? } else { stored.to_vec() };
+                sums = Some(to_dwords(&plain));
+            }
+        }
         for i in 0..n {
             let (s, e) = (tw[i] as usize, tw[i + 1] as usize);
             if e < s || e > raw.len() {
@@ -331,6 +344,11 @@ impl Parsed {
             let expect = ss.min(fsize - i * ss);
             let mut buf = raw[s..e].to_vec();
             dec(&mut buf, key.wrapping_add(i as u32));
+            if let Some(sm) = &sums {
+                if sm[i] != 0 && sm[i] != 0xFFFF_FFFF && sm[i] != adler32(&buf) {
+                    return Err(format!("sector {i}: stored checksum {:#010x} != ADLER32 of the stored sector {:#010x}", sm[i], adler32(&buf)));
+                }
+            }
             if buf.len() < expect {
                 tr.sector_methods.push(Some(buf[0]));
                 out.extend_from_slice(&inflate(buf[0], &buf[1..], expect)?);
@@ -401,8 +419,32 @@ fn deflate(method: u8, d: &[u8]) -> Vec<u8> {
     }
 }
 
+/// Extensions of the writer that most callers do not need.
+#[derive(Clone, Debug, Default)]
+pub struct WExt {
+    /// compressed multi-sector files carry sector checksums in the published layout: one more entry in the
+    /// sector offset table and a final, unencrypted sector of ADLER32 values (of each sector as stored)
+    pub sector_crc: bool,
+    /// store that checksum sector zlib-compressed (method byte + stream) when that is shorter
+    pub crc_sector_compressed: bool,
+}
+
+/// ADLER32 (RFC 1950), written out here so that the reference shares nothing with the library
+pub fn adler32(d: &[u8]) -> u32 {
+    let (mut a, mut b) = (1u32, 0u32);
+    for &x in d {
+        a = (a + x as u32) % 65521;
+        b = (b + a) % 65521;
+    }
+    (b << 16) | a
+}
+
 /// Write a conformant archive. Returns the bytes.
 pub fn write(files: &[WFile], opt: &WOptions) -> Result<Vec<u8>, String> {
+    write_with(files, opt, &WExt::default())
+}
+
+pub fn write_with(files: &[WFile], opt: &WOptions, ext: &WExt) -> Result<Vec<u8>, String> {
     let header_size: u32 = if opt.version == 0 { 32 } else { 44 };
     let ss = 512usize << opt.shift;
     let mut files: Vec<WFile> = files.to_vec();
@@ -467,8 +509,14 @@ pub fn write(files: &[WFile], opt: &WOptions) -> Result<Vec<u8>, String> {
         } else {
             flags |= F_COMPRESS;
             let n = fsize.div_ceil(ss);
-            let mut offs: Vec<u32> = vec![((n + 1) * 4) as u32];
+            let crc = ext.sector_crc && f.name != b"(listfile)";
+            if crc {
+                flags |= F_CRC;
+            }
+            let table = (n + 1 + crc as usize) * 4;
+            let mut offs: Vec<u32> = vec![table as u32];
             let mut payload: Vec<u8> = vec![];
+            let mut sums: Vec<u8> = vec![];
             for (i, sec) in f.data.chunks(ss).enumerate() {
                 let c = deflate(f.method, sec);
                 let mut buf = if c.len() + 1 < sec.len() {
@@ -478,9 +526,20 @@ pub fn write(files: &[WFile], opt: &WOptions) -> Result<Vec<u8>, String> {
                 } else {
                     sec.to_vec()
                 };
+                sums.extend_from_slice(&adler32(&buf).to_le_bytes());
                 enc(&mut buf, key.wrapping_add(i as u32));
                 payload.extend_from_slice(&buf);
-                offs.push(((n + 1) * 4 + payload.len()) as u32);
+                offs.push((table + payload.len()) as u32);
+            }
+            if crc {
+                if ext.crc_sector_compressed {
+                    let c = deflate(M_ZLIB, &sums);
+                    if c.len() + 1 < sums.len() {
+                        sums = [vec![M_ZLIB], c].concat();
+                    }
+                }
+                payload.extend_from_slice(&sums);
+                offs.push((table + payload.len()) as u32);
             }
             if f.encrypt {
                 encrypt_dwords(&mut offs, key.wrapping_sub(1));
